@@ -31,7 +31,8 @@ ANCHORS = [
                               "_update_array", "_output_from_mapspec_task", "_dump_single_output",
                               "_maybe_persist_memory"]),
 ]
-RULE = ("pipelines of harness/pipegen.py (1..5 structural functions; every output; root arguments as keywords) and "
+RULE = ("pipelines of harness/pipegen.py (1..5 structural functions; every output; root arguments as keywords, and for "
+        "half of the outputs also another element of arg_combinations, i.e. supplied intermediates) and "
         "valid map requests of harness/mapgen.py (1..3 functions, axis sizes 1..3, all three storages) x EVERY "
         "invocation of the run (function, call index) as the failing one x exception kinds {ValueError('m'), "
         "KeyError('k'), CustomError('p','q') (importable, picklable), RuntimeError()} x entry points pipeline(...), "
@@ -302,13 +303,24 @@ def _gen_pipe(rng, tier, n_pipes):
         outs = pipegen.outputs_of(pd)
         if tier == "quick" and len(outs) > 2:
             outs = rng.sample(outs, 2)
+        plans = []
         for o in outs:
+            try:
+                with contextlib.redirect_stdout(sink):
+                    pl = failsym.build_pipe(pd, ListLog())
+                    names = [list(pl.root_args(o))]
+                    others = [list(cmb) for cmb in sorted(pl.arg_combinations(o)) if list(cmb) != names[0]]
+                    if others and rng.random() < 0.5:      # also a call that supplies intermediate values
+                        names.append(rng.choice(others))
+            except Exception:  # noqa: BLE001
+                continue
+            plans += [(o, ns) for ns in names]
+        for o, ns in plans:
             log = ListLog()
             try:
                 with contextlib.redirect_stdout(sink):
                     pl = failsym.build_pipe(pd, log)
-                    roots = list(pl.root_args(o))
-                    kw = [[n, pipegen.value_for(rng, n)] for n in roots]
+                    kw = [[n, pipegen.value_for(rng, n)] for n in ns]
                     pl(o, **dict(kw))
             except Exception:  # noqa: BLE001
                 continue
@@ -404,8 +416,8 @@ def generate(rng, tier, mult):
         cases += _gen_map(rng, tier, 100 * mult, ["seq", "thread", "seqsub|threadsub"], max_calls=14,
                           shared_share=0.04)
     else:
-        cases = _gen_pipe(rng, tier, 300 * mult)
-        cases += _gen_map(rng, tier, 50 * mult, ["seq", "thread", "proc", "procdefault", "athread", "aproc",
+        cases = _gen_pipe(rng, tier, 220 * mult)
+        cases += _gen_map(rng, tier, 38 * mult, ["seq", "thread", "proc", "procdefault", "athread", "aproc",
                                                   "seqsub", "threadsub"], max_calls=14, shared_share=0.03)
     return cases
 
